@@ -207,6 +207,9 @@ def rule_ledger(ctx):
     ctx.table("panic sites", ["%dx %s [%s]" % (v, k[0], k[1]) for k, v in sorted(psites.items())])
     def module_of(pretty):
         """the module part of a function's path: leading lower-case segments"""
+        m_ = re.match(r"<.* as ([\w:]+?)(?:<.*>)?>::\w+$", pretty)
+        if m_:
+            pretty = m_.group(1) + "::x"  # a trait method: the module of the trait (impls live next to it here)
         segs = []
         for sg in re.sub(r"<[^<>]*(?:<[^<>]*>[^<>]*)*>", "", pretty).split("::"):
             if sg and (sg[0].islower() or sg[0] == "_"):
